@@ -1,6 +1,6 @@
 // rainvc:pkg torrent
 // rainvc:function torrent.(*Session).CompactDatabase
-// rainvc:bound sessions holding the sample torrent added from file and/or from a magnet link (3 combinations), each stopped and never started, with 0 or 1 tracker added afterwards; compacted once and loaded by a fresh session
+// rainvc:bound sessions holding the sample torrent added from file and/or from a magnet link (3 combinations), each stopped and never started, with 0 or 1 tracker added afterwards; compacted once and loaded by a fresh session; plus records with started false/true and resume version 1, 2 and latest, compacted by a session that was opened without resuming (6 cases)
 package torrent
 
 // Bounded stand-in (bbolt and the codecs are library code, outside the generator's reach):
@@ -8,7 +8,11 @@ package torrent
 // has metadata loads with the same id, info-hash, name, port and trackers.
 
 import (
+	"strconv"
+	"time"
+
 	"fmt"
+	"go.etcd.io/bbolt"
 	"os"
 	"path/filepath"
 	"reflect"
@@ -109,6 +113,82 @@ func TestRainvcBounded(t *testing.T) {
 			if err := s2.Close(); err != nil {
 				t.Fatal(err)
 			}
+		}
+	}
+	// the way `rain compact-database` runs it: torrents recorded as started, session opened with
+	// ResumeOnStartup=false (so everything is Stopped while compacting); and a record of an
+	// older resume version, whose info is read with that version's rules
+	for _, started := range []bool{false, true} {
+		for _, version := range []int{1, 2, 0} {
+			cases++
+			tmp := t.TempDir()
+			cfg := DefaultConfig
+			cfg.Database = filepath.Join(tmp, "session.db")
+			cfg.DataDir = tmp
+			cfg.DHTEnabled, cfg.PEXEnabled, cfg.RPCEnabled = false, false, false
+			cfg.Host = "127.0.0.1"
+			cfg.ResumeOnStartup = false
+			cfg.TrackerStopTimeout = 50 * time.Millisecond
+			s, err := NewSession(cfg)
+			if err != nil {
+				t.Fatal(err)
+			}
+			f, err := os.Open(torrentFile)
+			if err != nil {
+				t.Fatal(err)
+			}
+			tor, err := s.AddTorrent(f, &AddTorrentOptions{Stopped: true})
+			f.Close()
+			if err != nil {
+				t.Fatal(err)
+			}
+			id := tor.ID()
+			// set the recorded started flag and version directly, as an earlier run would have left them
+			err = s.db.Update(func(tx *bbolt.Tx) error {
+				b := tx.Bucket(torrentsBucket).Bucket([]byte(id))
+				if err := b.Put([]byte("started"), []byte(strconv.FormatBool(started))); err != nil {
+					return err
+				}
+				if version != 0 {
+					return b.Put([]byte("version"), []byte(strconv.Itoa(version)))
+				}
+				return nil
+			})
+			if err != nil {
+				t.Fatal(err)
+			}
+			before, err := s.resumer.Read(id)
+			if err != nil {
+				t.Fatal(err)
+			}
+			what := fmt.Sprintf("record with started=%v version=%d, session opened without resuming", started, before.Version)
+			out := filepath.Join(tmp, "compact.db")
+			if err := s.CompactDatabase(out); err != nil {
+				t.Fatalf("violation: %s: CompactDatabase fails: %v", what, err)
+			}
+			if err := s.Close(); err != nil {
+				t.Fatal(err)
+			}
+			time.Sleep(100 * time.Millisecond)
+			cfg.Database = out
+			s2, err := NewSession(cfg)
+			if err != nil {
+				t.Fatalf("violation: %s: the compacted database does not load: %v", what, err)
+			}
+			after, err := s2.resumer.Read(id)
+			if err != nil {
+				t.Fatalf("violation: %s: no record in the compacted database: %v", what, err)
+			}
+			if after.Started != before.Started {
+				t.Fatalf("violation: %s: the compacted database records started=%v", what, after.Started)
+			}
+			if after.Version != before.Version {
+				t.Fatalf("violation: %s: the compacted database records version %d (the info is then read by other rules)", what, after.Version)
+			}
+			if err := s2.Close(); err != nil {
+				t.Fatal(err)
+			}
+			time.Sleep(100 * time.Millisecond)
 		}
 	}
 	fmt.Printf("RAINVC-BOUNDED cases=%d\n", cases)
